@@ -46,12 +46,20 @@ def run(ctx) -> None:
     ctx.rule("d.memo-discipline", "the only non-None store to _fp is in fingerprint() itself, of the full recomputation, "
                                   "under `_fp is None`; _invalidate_fp stores None", 3)
     ctx.rule("e.pure-reads", "fingerprint and its helpers write cache fields only", 4)
+    ctx.rule("f.scatter", "what _hash_element returns for a value is a sentinel constant or a chain of 64-bit BIJECTIONS (& 2**64-1 of "
+                          "a hash, z ^ (z >> k), (z * odd) & 2**64-1, z ^ const) with at least one xor-shift and one multiplication "
+                          "over its source - hash(value), a child's fingerprint(), a nested fold, a recursive element hash - so "
+                          "values hash() tells apart stay apart, no raw hash / child fingerprint / nested fold enters the linear "
+                          "fold unscattered, and a nested fold is seeded by the container's length and type", 6)
     ctx.section("a", _coherence, ctx)
     ctx.section("b", _container, ctx)
     ctx.section("c", _content_only, ctx)
     ctx.section("d", _memo, ctx)
     ctx.section("e", _pure, ctx)
+    ctx.section("f", _scatter, ctx)
     ctx.not_decided.append("collision behaviour of hash() (the statement already excludes pairs such as -1/-2)")
+    ctx.not_decided.append("absence of collisions of the 61-bit fold itself (no finite fingerprint has none); C16.f decides that no "
+                           "collision FAMILY exists by construction: injective scattered element hashes, level separation, container tags")
 
 
 def _invalidation_events(it, X):
@@ -185,6 +193,20 @@ def _container(ctx) -> None:
            fp.node, message="; ".join(problems[:3]))
 
 
+def _content_seed(init, X) -> bool:
+    """the start value of a nested fold may depend on the container X only through len(X) and isinstance(X, ...)"""
+    from ..symx import subterms
+
+    def uses(t):
+        if t == X:
+            return True
+        if t[0] == "call" and t[1] in (("name", "len"), ("name", "isinstance")) and t[2] and t[2][0] == X:
+            return False
+        return any(uses(c) for c in t[1:] if isinstance(c, tuple) and c and isinstance(c[0], str)) or \
+            any(uses(c2) for c in t[1:] if isinstance(c, tuple) and c and isinstance(c[0], tuple) for c2 in c)
+    return not uses(init) and not any(t[0] in ("call",) and t[1][0] == "name" and t[1][1] in FORBIDDEN_SOURCES for t in subterms(init))
+
+
 def _fold_problems(it, L, acc_name, src_ok, hash_callees) -> List[str]:
     """Is loop L an order-sensitive polynomial fold  acc = (acc * B + H(x)) % P  of the loop's elements, from a constant?"""
     from ..symx import show
@@ -193,8 +215,8 @@ def _fold_problems(it, L, acc_name, src_ok, hash_callees) -> List[str]:
     if not src_ok(lp.iter):
         probs.append(f"the fold ranges over `{show(lp.iter, it)[:50]}`, not over all elements in order")
     init, nxt = lp.carried.get(acc_name, (None, None))
-    if init is None or init[0] != "const":
-        probs.append("accumulator does not start from a constant")
+    if init is None or (init[0] != "const" and not _content_seed(init, lp.iter)):
+        probs.append("accumulator does not start from a constant or from the container's length / type")
     lv = ("loopvar", acc_name, L)
     x = ("elem", lp.iter, L)
     ok = False
@@ -242,23 +264,237 @@ def _content_only(ctx) -> None:
     X = ("param", g.params[0])
     gh = (("attr", ("name", "Vector"), "_hash_element"), ("name", "_hash_element"), ("attr", ("param", "cls"), "_hash_element"))
     from ..sites2 import leaves as _leaves
+    from ..symx import subterms as _subterms
     for v in [lf for e in gi.events if e.kind == "return" and e.depth == 0 for lf in _leaves(e.term)]:
-        ok_form = (v[0] == "const" and isinstance(v[2], int)) \
-            or (v[0] == "call" and v[1] == ("name", "hash") and len(v[2]) == 1) \
-            or (v[0] == "call" and v[1] == ("name", "int") and len(v[2]) == 1 and v[2][0][0] == "call" and v[2][0][1][0] == "attr"
-                and v[2][0][1][2] == "fingerprint") \
-            or (v[0] == "call" and v[1] in gh)
-        if v[0] == "after":
-            fp = _fold_problems(gi, v[2], v[1], lambda src: src == X, gh)
-            ok_form = not fp
-            p2 += [f"nested fold: {m}" for m in fp]
-            if fp:
-                continue
-        if not ok_form:
-            p2.append(f"`return {show(v, gi)[:60]}` post-processes the element hash: a non-injective wrapper (abs, %, &, //) makes distinct "
-                      f"values that Python's hash() tells apart (5 / -5) indistinguishable")
+        for t in _subterms(v):
+            if t[0] == "after":
+                p2 += [f"nested fold: {m}" for m in _fold_problems(gi, t[2], t[1], lambda src: src == X, gh)]
     ctx.ob("c.content-only", g, "element-hash", not p2, "_hash_element reads only the element (and class constants)", g.node,
            message="; ".join(p2))
+
+
+_M64 = 2 ** 64 - 1
+
+
+class _NotInjective(Exception):
+    pass
+
+
+def _konst(prog, module, t):
+    """integer value of a literal or module-level integer constant"""
+    from ..core import module_binding
+    if t[0] == "const" and isinstance(t[2], int) and not isinstance(t[2], bool):
+        return t[2]
+    if t[0] == "name":
+        mb = module_binding(prog, module, t[1])
+        if mb and mb[0] == "constant":
+            try:
+                v = ast.literal_eval(mb[1])
+            except Exception:
+                try:
+                    v = eval(compile(ast.Expression(mb[1]), "<const>", "eval"), {"__builtins__": {}}) \
+                        if all(isinstance(n, (ast.Expression, ast.BinOp, ast.Constant, ast.operator, ast.UnaryOp, ast.unaryop))
+                               for n in ast.walk(mb[1])) else None
+                except Exception:
+                    v = None
+            if isinstance(v, int) and not isinstance(v, bool):
+                return v
+    return None
+
+
+def _peel(t, K):
+    """Strip 64-bit bijections from the outside of t: -> (source term, steps outermost first).
+    Raises _NotInjective for an operator known to merge values."""
+    steps = []
+    while t[0] == "bin":
+        op, a, b = t[1], t[2], t[3]
+        ca, cb = K(a), K(b)
+        if op == "BitAnd":
+            z, c = (a, cb) if cb is not None else (b, ca)
+            if c is None:
+                raise _NotInjective("`&` of two computed values")
+            if c != _M64:
+                raise _NotInjective(f"`& {c:#x}` drops bits (only & 2**64-1 keeps a 64-bit hash apart)")
+            if z[0] == "bin" and z[1] == "Mult":
+                u, m = (z[2], K(z[3])) if K(z[3]) is not None else (z[3], K(z[2]))
+                if m is None:
+                    raise _NotInjective("product of two computed values")
+                if m % 2 == 0:
+                    raise _NotInjective(f"multiplication by the even number {m} modulo 2**64 loses the top bit")
+                steps.append(("mul", m))
+                t = u
+                continue
+            if z[0] == "bin" and z[1] in ("Add", "Sub") and (K(z[2]) is None) != (K(z[3]) is None):
+                steps.append(("add",))
+                t = z[2] if K(z[3]) is not None else z[3]
+                continue
+            steps.append(("mask",))
+            t = z
+            continue
+        if op == "BitXor":
+            if (ca is None) != (cb is None):
+                c = ca if ca is not None else cb
+                if not 0 <= c <= _M64:
+                    raise _NotInjective(f"xor with {c} leaves the 64-bit range")
+                steps.append(("xor", c))
+                t = b if ca is not None else a
+                continue
+            for z, sh in ((a, b), (b, a)):
+                if sh[0] == "bin" and sh[1] == "RShift" and sh[2] == z and K(sh[3]) is not None:
+                    if not 1 <= K(sh[3]) <= 63:
+                        raise _NotInjective(f"z ^ (z >> {K(sh[3])}) is not a bijection of 64-bit integers")
+                    steps.append(("xorshift", K(sh[3])))
+                    t = z
+                    break
+            else:
+                raise _NotInjective("xor of two different computed values")
+            continue
+        names = {"Mod": "%", "FloorDiv": "//", "RShift": ">>", "BitOr": "|", "LShift": "<<", "Mult": "* (unmasked)", "Add": "+",
+                 "Sub": "-", "Pow": "**", "Div": "/"}
+        raise _NotInjective(f"`{names.get(op, op)}` applied to the element hash merges values")
+    if t[0] == "call" and t[1][0] == "name" and t[1][1] in ("abs", "min", "max", "round", "bool", "divmod", "pow"):
+        raise _NotInjective(f"`{t[1][1]}()` applied to the element hash merges values")
+    if t[0] == "un":
+        raise _NotInjective(f"unary `{t[1]}` applied to the element hash leaves the 64-bit range")
+    return t, steps
+
+
+def _arith_only(f: FuncInfo) -> bool:
+    """a straight-line function of integer arithmetic on its parameters: local (aug)assignments of operator expressions, one return"""
+    body = [st for st in f.node.body if not (isinstance(st, ast.Expr) and isinstance(st.value, ast.Constant))]
+    if not body or not isinstance(body[-1], ast.Return) or body[-1].value is None:
+        return False
+    for st in body:
+        if isinstance(st, ast.Assign) and all(isinstance(t, ast.Name) for t in st.targets):
+            v = st.value
+        elif isinstance(st, ast.AugAssign) and isinstance(st.target, ast.Name):
+            v = st.value
+        elif isinstance(st, ast.AnnAssign) and isinstance(st.target, ast.Name) and st.value is not None:
+            v = st.value
+        elif isinstance(st, ast.Return):
+            v = st.value
+        else:
+            return False
+        if not all(isinstance(n, (ast.BinOp, ast.UnaryOp, ast.Name, ast.Constant, ast.operator, ast.unaryop, ast.expr_context))
+                   for n in ast.walk(v)):
+            return False
+    return True
+
+
+def _scatter(ctx) -> None:
+    """C16.f: the bug-hunt family BH09-2/4/5/7 - the fingerprint folded RAW hashes (hash(int) == int, reduced mod P: -5 ~ P-5; linear
+    in the data: [a, b] ~ [a+d, b-d*B]), RAW child fingerprints (same base at both levels: a 2x2 table ~ its transpose) and unseeded
+    nested folds (5 ~ (5,) ~ [5], () ~ 0).  Decided on the return terms of _hash_element."""
+    from ..sites2 import interp_of
+    from ..sites2 import leaves as _leaves
+    from ..symx import show, subterms
+    prog = ctx.prog
+    from ..symx import Interp, default_inline
+    g = prog.func("vector.Vector._hash_element")
+    base_pred = default_inline(prog)
+    # integer mixers are evaluated in line whether or not the reference tree already had them
+    gi = Interp(prog, g, inline=lambda f: base_pred(f) or _arith_only(f))
+    X = ("param", g.params[0])
+    gh = (("attr", ("name", "Vector"), "_hash_element"), ("name", "_hash_element"), ("attr", ("param", "cls"), "_hash_element"))
+
+    def K(t):
+        return _konst(prog, g.module, t)
+    sentinels = []
+    seeds = []
+    n = 0
+    for e in gi.events:
+        if e.kind != "return" or e.depth != 0:
+            continue
+        for v in _leaves(e.term):
+            n += 1
+            role = f"return:{n}"
+            c = K(v)
+            if c is not None:
+                ok = 0 <= c <= _M64 and c not in sentinels
+                ctx.ob("f.scatter", g, role, ok, f"sentinel {c:#x} (distinct, 64-bit)", e.node,
+                       message=f"sentinel {c} " + ("repeats another sentinel: two kinds of value share one hash" if c in sentinels
+                                                   else "is outside the 64-bit range of the scattered hashes"))
+                sentinels.append(c)
+                continue
+            try:
+                src, steps = _peel(v, K)
+            except _NotInjective as ex:
+                ctx.ob("f.scatter", g, role, False, "", e.node,
+                       message=f"`return {show(v, gi)[:60]}`: {ex}: distinct values that Python's hash() tells apart (5 / -5) "
+                               f"would share a fingerprint")
+                continue
+            kind = None
+            if src[0] == "call" and src[1] == ("name", "hash") and len(src[2]) == 1 and not src[3]:
+                kind = "hash"
+            elif src[0] == "call" and src[1] == ("name", "int") and len(src[2]) == 1 and src[2][0][0] == "call" \
+                    and src[2][0][1][0] == "attr" and src[2][0][1][2] == "fingerprint":
+                kind = "child fingerprint"
+            elif src[0] == "after":
+                kind = "nested fold"
+            elif src[0] == "call" and src[1] in gh:
+                kind = "element hash of a rebuilt value"
+            if kind is None:
+                raise AnalysisError(f"{g.qualname}: `return {show(v, gi)[:70]}`: source `{show(src, gi)[:50]}` is neither hash(), a child "
+                                    f"fingerprint, a nested fold nor a recursive element hash; its injectivity is not decided")
+            probs = []
+            inner_first = list(reversed(steps))
+            # range discipline: xor / xor-shift are bijections of [0, 2**64) only: a signed hash() must be masked (or multiplied) first
+            signed = kind == "hash"
+            for st in inner_first:
+                if st[0] in ("mask", "mul", "add"):
+                    signed = False
+                elif signed:
+                    probs.append(f"{st[0]} applied to the signed hash() before it is reduced to 64 bits")
+                    break
+            if not any(st[0] == "xorshift" for st in steps) or not any(st[0] == "mul" and st[1] not in (1, _M64) for st in steps):
+                probs.append(f"the {kind} enters the linear fold "
+                             + ("raw" if not steps else "without a xor-shift and an odd multiplication")
+                             + {"hash": ": hash(int) is the int itself, so -5 and 2**61-6 are merged by `% P` and [a, b] ~ [a+d, b-d*B]",
+                                "child fingerprint": ": the table fold and the column fold are one polynomial in the same base, so the "
+                                                     "weight of a cell depends on row+column only (a 2x2 table ~ its transpose)",
+                                "nested fold": ": a container and its only item / the same items one level up share a hash",
+                                "element hash of a rebuilt value": ": the value and the value it is rebuilt as ({1, 2} / (1, 2)) share a hash"}[kind])
+            if kind == "nested fold":
+                lp = gi.loops[src[2]]
+                init = lp.carried.get(src[1], (None, None))[0]
+                ln = ("call", ("name", "len"), (lp.iter,), ())
+                if init is None or ln not in list(subterms(init)):
+                    probs.append("the nested fold does not start from the container's length: () ~ (0,) ~ 0 and (1, 2) ~ (0, 1, 2)")
+                else:
+                    seeds.append((e, lp, init))
+            ctx.ob("f.scatter", g, role, not probs, f"{kind}: " + " . ".join(
+                f"{st[0]}{'' if len(st) == 1 else ' ' + (hex(st[1]) if st[0] != 'xorshift' else str(st[1]))}" for st in inner_first),
+                e.node, message=f"`return {show(v, gi)[:50]}`: " + "; ".join(probs))
+    # container types sharing a fold must be told apart by the seed
+    for e, lp, init in seeds:
+        types = []
+        for c, pol in e.conds:
+            if pol and c[0] == "call" and c[1] == ("name", "isinstance") and len(c[2]) == 2 and c[2][0] == lp.iter:
+                tt = c[2][1]
+                types = [x[1] for x in (tt[1] if tt[0] == "tuple" else (tt,)) if x[0] == "name"]
+        variants = {}
+        for ty in types:
+            variants[ty] = _assume_type(init, lp.iter, ty)
+        distinct = len({_freeze(v) for v in variants.values()}) == len(variants)
+        ctx.ob("f.scatter", g, f"seed:{'/'.join(types) or '?'}", distinct and bool(types),
+               f"nested fold over {'/'.join(types)}: seeded by len() and a per-type tag", e.node,
+               message=f"the fold over {' and '.join(types) or 'the container'} starts from the same value for each type: (1, 2) and "
+                       f"[1, 2] are unequal but share a hash")
+
+
+def _freeze(t):
+    return repr(t)
+
+
+def _assume_type(t, X, ty):
+    """t with every `A if isinstance(X, C) else B` resolved for X of exact builtin type ty"""
+    if not isinstance(t, tuple):
+        return t
+    if t and t[0] == "ifexp" and t[1][0] == "call" and t[1][1] == ("name", "isinstance") and len(t[1][2]) == 2 and t[1][2][0] == X:
+        tt = t[1][2][1]
+        names = [x[1] for x in (tt[1] if tt[0] == "tuple" else (tt,)) if x[0] == "name"]
+        return _assume_type(t[2] if ty in names else t[3], X, ty)
+    return tuple(_assume_type(c, X, ty) for c in t)
 
 
 def _forbidden(f: FuncInfo) -> List[str]:
@@ -346,8 +582,39 @@ MUTANTS = [
          new="		return Vector.fingerprint(self)\n\n	def _build_column_map", rules=["b.container"]),
     dict(id="fold-commutative", module=_V, old="			total = (total * B + h) % P\n		return total",
          new="			total = (total + h) % P\n		return total", rules=["c.content-only"]),
-    dict(id="id-in-hash-element", module=_V, old="		if _is_hashable(x):\n			return hash(x)\n",
-         new="		if _is_hashable(x):\n			return hash(x)\n		return id(x)\n", rules=["c.content-only"]),
+    dict(id="id-in-hash-element", module=_V, old="		if _is_hashable(x):\n			return _mix64(hash(x))\n",
+         new="		if _is_hashable(x):\n			return _mix64(hash(x))\n		return _mix64(id(x))\n", rules=["c.content-only"]),
+    dict(id="leaf-hash-raw", module=_V, old="		if _is_hashable(x):\n			return _mix64(hash(x))\n",
+         new="		if _is_hashable(x):\n			return hash(x)\n", rules=["f.scatter"],
+         desc="reverts 17c195f for leaves: -5 ~ 2**61-6, [a, b] ~ [a+d, b-d*B] (BH09-5, BH09-7)"),
+    dict(id="child-fingerprint-raw", module=_V, old="			return _mix64(int(x.fingerprint()) ^ _FP_TAG_VECTOR)",
+         new="			return int(x.fingerprint())", rules=["f.scatter"], desc="a 2x2 table ~ its transpose (BH09-2)"),
+    dict(id="nested-fold-unseeded", module=_V,
+         old="			h = _mix64(len(x) ^ (_FP_TAG_LIST if isinstance(x, list) else _FP_TAG_TUPLE)) % P", new="			h = 0",
+         rules=["f.scatter"], desc="() ~ (0,) (BH09-4)"),
+    dict(id="nested-fold-seed-without-type", module=_V,
+         old="			h = _mix64(len(x) ^ (_FP_TAG_LIST if isinstance(x, list) else _FP_TAG_TUPLE)) % P",
+         new="			h = _mix64(len(x) ^ _FP_TAG_LIST) % P", rules=["f.scatter"], desc="(1, 2) ~ [1, 2] (BH09-4)"),
+    dict(id="nested-fold-returned-raw", module=_V, old="				h = (h * B + Vector._hash_element(elem)) % P\n			return _mix64(h)",
+         new="				h = (h * B + Vector._hash_element(elem)) % P\n			return h", rules=["f.scatter"]),
+    dict(id="set-hashed-as-its-tuple", module=_V, old="			return _mix64(Vector._hash_element(tuple(rep)) ^ _FP_TAG_SET)",
+         new="			return Vector._hash_element(tuple(rep))", rules=["f.scatter"], desc="{1, 2} ~ (1, 2) (BH09-4)"),
+    dict(id="mixer-even-multiplier", module=_V, old="	z = (z * 0xBF58476D1CE4E5B9) & _MASK64", new="	z = (z * 0xBF58476D1CE4E5B8) & _MASK64",
+         rules=["f.scatter"], desc="an even multiplier modulo 2**64 merges z and z + 2**63"),
+    dict(id="mixer-abs", module=_V, old="	z &= _MASK64\n	z ^= z >> 30", new="	z = abs(z)\n	z ^= z >> 30", rules=["f.scatter"],
+         desc="5 and -5"),
+    dict(id="mixer-truncates", module=_V, old="	z ^= z >> 31\n	return z", new="	z ^= z >> 31\n	return z & 0xFFFFFFFF", rules=["f.scatter"]),
+    dict(id="mixer-identity", module=_V, old="	z ^= z >> 30\n	z = (z * 0xBF58476D1CE4E5B9) & _MASK64\n	z ^= z >> 27\n	z = (z * 0x94D049BB133111EB) & _MASK64\n	z ^= z >> 31\n	return z",
+         new="	return z", rules=["f.scatter"], desc="the fold is linear in hash(int) == int again"),
+    dict(id="mixer-shift-not-xorshift", module=_V, old="	z ^= z >> 27", new="	z = z >> 27", rules=["f.scatter"]),
+    dict(id="nan-sentinel-equals-none-sentinel", module=_V, old="				return 0xDEADBEEFCAFEBABE", new="				return 0x9E3779B97F4A7C15",
+         rules=["f.scatter"], desc="None and NaN share a hash: v[i] = nan over None is not noticed"),
+    dict(id="twin-mixer-murmur3", module=_V, twin=True,
+         edits=[(_V, "	z ^= z >> 30\n	z = (z * 0xBF58476D1CE4E5B9) & _MASK64\n	z ^= z >> 27\n	z = (z * 0x94D049BB133111EB) & _MASK64\n	z ^= z >> 31\n	return z",
+                 "	z = z ^ (z >> 33)\n	z = (0xFF51AFD7ED558CCD * z) & _MASK64\n	z = z ^ (z >> 33)\n	return ((z * 0xC4CEB9FE1A85EC53) & _MASK64) ^ (((z * 0xC4CEB9FE1A85EC53) & _MASK64) >> 33)", 1)]),
+    dict(id="twin-list-tuple-own-branches", module=_V, twin=True,
+         edits=[(_V, "			h = _mix64(len(x) ^ (_FP_TAG_LIST if isinstance(x, list) else _FP_TAG_TUPLE)) % P\n			for elem in x:\n				h = (h * B + Vector._hash_element(elem)) % P\n			return _mix64(h)",
+                 "			tag = _FP_TAG_TUPLE\n			if isinstance(x, list):\n				tag = _FP_TAG_LIST\n			h = _mix64(tag ^ len(x)) % P\n			for elem in x:\n				h = (Vector._hash_element(elem) + h * B) % P\n			return _mix64(h)", 1)]),
     dict(id="name-in-fingerprint", module=_V, old="		total = 0\n		for x in self._underlying:\n			h = self._hash_element(x)",
          new="		total = hash(self._name) % P\n		for x in self._underlying:\n			h = self._hash_element(x)", rules=["c.content-only"]),
     dict(id="incremental-fp-patch", module=_V, old="		self._invalidate_fp()\n		_alias.register",
